@@ -149,17 +149,117 @@ def refute_by_sampling(pc, g, inputs, tries=10, seed=0):
     return None
 
 
+def refute_with_line_abstraction(pc, g, inputs, timeout_ms=6000):
+    """counter-model search for formulas that apply uninterpreted operators to lines (z3 lambdas).
+
+    Every syntactically distinct lambda becomes a constant of an uninterpreted sort and every operator taking array
+    arguments a function over those constants (pure EUF + arithmetic: models are found at once).  To make such a model
+    a model of the ORIGINAL formula, all distinct constants are forced to be pairwise different AND for every pair a
+    witness position is demanded at which the two lambda bodies really differ; then the operator can be interpreted on
+    the (finitely many, pairwise different) real lines exactly as the abstract model interprets it on the constants.
+    Returns a solver holding the model, or None (no conclusion)."""
+    lams, cache, ops = {}, {}, {}
+    is_arr = lambda srt: srt.kind() == z3.Z3_ARRAY_SORT
+    fail = []
+
+    def sort_of(a):
+        return z3.DeclareSort(f'Line_{a.range()}'.replace(' ', '_')) if is_arr(a) else a
+
+    def rw(t):
+        k = t.get_id()
+        if k in cache:
+            return cache[k]
+        if z3.is_quantifier(t):
+            if not t.is_lambda() or t.num_vars() != 1:
+                fail.append('quantifier')
+                r = t
+            else:
+                key = t.sexpr()
+                if key not in lams:
+                    lams[key] = (z3.Const(f'line!{len(lams)}', sort_of(t.sort())), t)
+                r = lams[key][0]
+        elif z3.is_app(t):
+            ch = [rw(c) for c in t.children()]
+            d = t.decl()
+            if d.kind() == z3.Z3_OP_UNINTERPRETED and any(is_arr(d.domain(i)) for i in range(d.arity())):
+                if d.name() not in ops:
+                    ops[d.name()] = z3.Function(d.name() + '!abs', *[sort_of(d.domain(i)) for i in range(d.arity())], d.range())
+                r = ops[d.name()](*ch)
+            elif any(is_arr(c.sort()) for c in t.children()):
+                fail.append('array-valued subterm outside an operator application')   # e.g. Select / Store / = on lines
+                r = t
+            else:
+                r = d(*ch) if ch else t
+        else:
+            r = t
+        cache[k] = r
+        return r
+    try:
+        apc = [rw(c) for c in pc]
+        ag = rw(g)
+    except z3.Z3Exception:
+        return None
+    if fail or not lams:
+        return None
+    so = z3.Solver()
+    so.set('timeout', timeout_ms)
+    so.add(*apc)
+    so.add(z3.Not(ag))
+    items = list(lams.values())
+    for i in range(len(items)):
+        for j in range(i + 1, len(items)):
+            (c1, l1), (c2, l2) = items[i], items[j]
+            if not c1.sort().eq(c2.sort()):
+                continue
+            w = z3.Int(f'witness!{i}!{j}')
+            so.add(c1 != c2, w >= 0)
+            so.add(z3.simplify(z3.Select(l1, w)) != z3.simplify(z3.Select(l2, w)))
+    if so.check() == z3.sat:
+        return so
+    # the same under sampled geometry (see refute_by_sampling)
+    geo = [(nm, kd) for nm, kd in (inputs or {}).items() if isinstance(kd, str) and kd in ('float', 'int') and re.search(r'(pmin|cell|edge|_n\d|^n\d|_tf$)', nm)]
+    rnd = random.Random(99)
+    for _ in range(4 if geo else 0):
+        so.push()
+        for nm, kd in geo:
+            if kd == 'int':
+                so.add(z3.Int(nm) == rnd.choice([2, 3, 4, 5]))
+            elif 'cell' in nm or 'edge' in nm:
+                so.add(z3.Real(nm) == z3.RealVal(rnd.choice(['1', '2', '1/2', '3', '5/4'])))
+            elif nm.endswith('_tf'):
+                so.add(z3.Real(nm) == 0)
+            else:
+                so.add(z3.Real(nm) == z3.RealVal(rnd.choice(['0', '-1', '1', '-3', '1/2', '2'])))
+        if so.check() == z3.sat:
+            return so
+        so.pop()
+    return None
+
+
 def prove(pc, goal, timeout_ms, cross=False, light=False, inputs=None):
     """pc => goal ?  returns (status, backend, seconds, model|None, reason)"""
     t0 = time.time()
     if isinstance(goal, bool) and goal:
         return 'discharged', 'eval', 0.0, None, ''
     g = z3.BoolVal(False) if isinstance(goal, bool) else goal
-    so = z3.Solver()
-    so.set('timeout', timeout_ms)
-    so.add(*pc)
-    so.add(z3.Not(g))
-    r = so.check()
+    def attempt(ms):
+        so_ = z3.Solver()
+        so_.set('timeout', ms)
+        so_.add(*pc)
+        so_.add(z3.Not(g))
+        return so_, so_.check()
+    # a short first attempt (valid obligations discharge in well under a second); when it is inconclusive the cheap
+    # counter-model searches run BEFORE the full budget is spent
+    so, r = attempt(min(4000, timeout_ms))
+    if r == z3.unknown:
+        sr = refute_with_line_abstraction(pc, g, inputs)
+        if sr is not None:
+            return 'failed', 'z3-5.1(line abstraction with witnesses)', time.time() - t0, sr.model(), ''
+        sr = refute_by_sampling(pc, g, inputs)
+        if sr is not None:
+            return 'failed', 'z3-5.1(sampled geometry)', time.time() - t0, sr.model(), ''
+        if timeout_ms > 4000:
+            so, r = attempt(timeout_ms)
     dt = time.time() - t0
     if r == z3.unsat:
         status, backend, model, reason = 'discharged', 'z3-5.1', None, ''
@@ -167,9 +267,6 @@ def prove(pc, goal, timeout_ms, cross=False, light=False, inputs=None):
         status, backend, model, reason = 'failed', 'z3-5.1', so.model(), ''
     else:
         status, backend, model, reason = 'undecided', 'z3-5.1', None, so.reason_unknown()
-        sr = refute_by_sampling(pc, g, inputs)
-        if sr is not None:
-            return 'failed', 'z3-5.1(sampled geometry)', time.time() - t0, sr.model(), ''
         if light:
             return status, backend, dt, model, reason
         # a time-out under load must not flip a verdict: one more one-shot attempt with a 4x budget and another seed
